@@ -7,11 +7,16 @@ realise the symbolic degrees); dispatch to the handlers is the real MultiFunctio
 
 import units._xh_setup  # noqa: F401
 from ufl import (Coefficient, Constant, FunctionSpace, Mesh, SpatialCoordinate, as_vector, dot, grad, inner, interval,
-                 tetrahedron, triangle)
+                 tetrahedron, triangle, quadrilateral, conditional, lt, gt, max_value, min_value, outer, cross, div, curl,
+                 nabla_grad, nabla_div, conj, real, imag, variable, transpose, Jacobian)
 from ufl.algorithms.apply_algebra_lowering import apply_algebra_lowering
 from ufl.algorithms.estimate_degrees import SumDegreeEstimator
 from ufl.classes import (Argument, ComponentTensor, Division, Grad, Indexed, IndexSum, IntValue, ListTensor, Power,
-                         Product, Sum, Terminal)
+                         Product, Sum, Terminal, PositiveRestricted, NegativeRestricted, Conj, Real, Imag, Variable,
+                         Transposed, Inner, Dot, Outer, Cross, Div, Curl, NablaGrad, NablaDiv, Conditional, Condition,
+                         MinValue, MaxValue)
+from ufl.classes import Jacobian as JacobianT
+from ufl.domain import extract_unique_domain
 
 
 def unique_post_traversal(expr):
@@ -68,6 +73,11 @@ class E(AbstractFiniteElement):
 
     def __eq__(self, other):
         return isinstance(other, E) and self._tag == other._tag
+
+    def is_cellwise_constant(self):
+        # concrete on purpose: Grad/Div/...__new__ ask this when CrossHair copies a derivative node outside tracing
+        # (set membership in ufl traversals); skeletons are built at placeholder degree 2, where the answer is False
+        return False
 
     sobolev_space = property(lambda self: self._sob)
     pullback = property(lambda self: self._pb)
@@ -178,7 +188,10 @@ def true_degree(expr, gdim, tdim):
         if isinstance(v, Coefficient):
             r = v.ufl_element().embedded_superdegree
         elif isinstance(v, SpatialCoordinate):
-            r = 1
+            r = extract_unique_domain(v).ufl_coordinate_element().embedded_superdegree
+        elif isinstance(v, JacobianT):
+            m = extract_unique_domain(v).ufl_coordinate_element().embedded_superdegree
+            r = m - 1 if m > 0 else 0
         elif isinstance(v, Terminal):
             r = 0 if not isinstance(v, Argument) else v.ufl_element().embedded_superdegree
         elif isinstance(v, Indexed):
@@ -199,8 +212,22 @@ def true_degree(expr, gdim, tdim):
             r = ops[0]          # divisor is a constant in the skeletons
         elif isinstance(v, Power):
             r = ops[0] * int(v.ufl_operands[1])
-        elif isinstance(v, Grad):
-            r = ops[0] - 1 if ops[0] > 0 else 0
+        elif isinstance(v, (Grad, Div, Curl, NablaGrad, NablaDiv)):
+            # per-direction degree on tensor-product cells: a derivative does not lower it (documented)
+            if extract_unique_domain(v).ufl_cell().cellname in ("quadrilateral", "hexahedron"):
+                r = ops[0]
+            else:
+                r = ops[0] - 1 if ops[0] > 0 else 0
+        elif isinstance(v, (PositiveRestricted, NegativeRestricted, Conj, Real, Imag, Variable, Transposed)):
+            r = ops[0]
+        elif isinstance(v, (Inner, Dot, Outer, Cross)):
+            r = ops[0] + ops[1]
+        elif isinstance(v, Condition):
+            r = None
+        elif isinstance(v, Conditional):
+            r = ops[1] if ops[1] > ops[2] else ops[2]     # exact on cells where the condition is constant
+        elif isinstance(v, (MinValue, MaxValue)):
+            r = ops[0] if ops[0] > ops[1] else ops[1]
         elif isinstance(v, (IndexSum, ComponentTensor)):
             r = ops[0]
         elif isinstance(v, ListTensor):
@@ -281,6 +308,35 @@ def _build():
     SK["arguments"] = [(f * ua * va, 2, 2), (ua * va, 2, 2), (grad(ua)[0] * va, 2, 2), (apply_algebra_lowering(dot(pa, qa)), 2, 2),
                        (va, 2, 2), (f * va + g * g * va, 2, 2), (ta[0] * f, 2, 2), (ta[1] * f, 2, 2), (ta[0] * ta[1], 2, 2),
                        (apply_algebra_lowering(dot(ta, ta)), 2, 2)]
+    # --- round 4: wrappers, unlowered compound operators, piecewise nodes, tensor-product cells, P_m geometry
+    vf = Coefficient(FunctionSpace(dom, E("Ewv", triangle, 2, (2,))), count=21)
+    vg = Coefficient(FunctionSpace(dom, E("Eww", triangle, 2, (2,))), count=22)
+    SK["wrappers"] = [(f("+") * g("-"), 2, 2), (conj(f) * real(g) + imag(f * g), 2, 2), (variable(f * g) * f, 2, 2),
+                      (grad(f)("+")[0] * g("-"), 2, 2), (transpose(outer(vf, vg))[0, 1] * f, 2, 2),
+                      (variable(grad(vf))[0, 1] * conj(g), 2, 2), (real(vf)[0] * imag(vg)[1], 2, 2)]
+    SK["compound"] = [(inner(vf, vg), 2, 2), (dot(vf, vg) * f, 2, 2), (outer(vf, vg)[0, 1], 2, 2), (div(vf) * g, 2, 2),
+                      (inner(grad(vf), grad(vg)), 2, 2), (curl(vf) * g, 2, 2), (inner(nabla_grad(vf), outer(vg, vg)), 2, 2),
+                      (nabla_div(vf) * nabla_div(vg), 2, 2), (dot(grad(f), vg) + div(outer(vf, vg))[0], 2, 2),
+                      (inner(grad(grad(f)), outer(vg, vg)), 2, 2)]
+    v3 = Coefficient(FunctionSpace(dom3, E("Ewx", triangle, 2, (3,))), count=23)
+    u3 = Coefficient(FunctionSpace(dom3, E("Ewy", triangle, 2, (3,))), count=24)
+    SK["compound"] += [(cross(v3, u3)[0], 3, 2), (inner(cross(v3, u3), v3), 3, 2)]
+    SK["piecewise"] = [(conditional(lt(f, g), f * f, g), 2, 2), (conditional(gt(f * g, c), g, f * g) * f, 2, 2),
+                       (max_value(f, g * g), 2, 2), (min_value(f * f, g) * g, 2, 2),
+                       (conditional(lt(x[0], c), grad(f)[0], g) + max_value(f, g), 2, 2),
+                       (min_value(max_value(f, g), f * g), 2, 2)]
+    qdom = _dom(quadrilateral, 2)
+    fq = Coefficient(FunctionSpace(qdom, E("Eqf", quadrilateral, 2)), count=25)
+    gq = Coefficient(FunctionSpace(qdom, E("Eqg", quadrilateral, 2)), count=26)
+    vq = Coefficient(FunctionSpace(qdom, E("Eqv", quadrilateral, 2, (2,))), count=27)
+    SK["quadrilateral"] = [(grad(fq)[0] * gq, 2, 2), (inner(grad(fq), grad(gq)), 2, 2), (div(vq) * fq, 2, 2),
+                           (grad(grad(fq))[0, 1] * grad(gq)[1], 2, 2), (fq * gq + grad(fq * gq)[0], 2, 2),
+                           (nabla_grad(vq)[0, 1] * curl(vq), 2, 2)]
+    cdom = Mesh(E("Xcurved", triangle, 2, (2,)))
+    xc = SpatialCoordinate(cdom)
+    fc = Coefficient(FunctionSpace(cdom, E("Ecf", triangle, 2)), count=28)
+    SK["curved_geometry"] = [(xc[0] * xc[1] * fc, 2, 2), (xc[0] ** 2 + fc * xc[1], 2, 2), (Jacobian(cdom)[0, 1] * fc, 2, 2),
+                             (Jacobian(cdom)[0, 0] * xc[1], 2, 2), (inner(xc, xc) * fc, 2, 2)]
     return SK
 
 
@@ -453,6 +509,51 @@ def nested_mixed(p: int, q: int, r: int) -> int:
     return _worst("nested_mixed")
 
 
+def wrappers(p: int, q: int, r: int) -> int:
+    """
+    pre: 0 <= p <= 4 and 0 <= q <= 4 and 0 <= r <= 4
+    post: _ >= 0
+    """
+    _set(Ef=p, Eg=q, Ewv=r, Eww=q)
+    return _worst("wrappers")
+
+
+def compound(p: int, q: int, r: int) -> int:
+    """
+    pre: 0 <= p <= 4 and 0 <= q <= 4 and 0 <= r <= 4
+    post: _ >= 0
+    """
+    _set(Ef=p, Eg=q, Ewv=r, Eww=q, Ewx=p, Ewy=r)
+    return _worst("compound")
+
+
+def piecewise(p: int, q: int) -> int:
+    """
+    pre: 0 <= p <= 5 and 0 <= q <= 5
+    post: _ >= 0
+    """
+    _set(Ef=p, Eg=q)
+    return _worst("piecewise")
+
+
+def quadrilateral_cells(p: int, q: int, r: int) -> int:
+    """
+    pre: 0 <= p <= 4 and 0 <= q <= 4 and 0 <= r <= 4
+    post: _ >= 0
+    """
+    _set(Eqf=p, Eqg=q, Eqv=r)
+    return _worst("quadrilateral")
+
+
+def curved_geometry(m: int, p: int) -> int:
+    """
+    pre: 1 <= m <= 4 and 0 <= p <= 5
+    post: _ >= 0
+    """
+    _set(Xcurved=m, Ecf=p)
+    return _worst("curved_geometry")
+
+
 def scalar_poly_twin(p: int, q: int) -> int:
     """
     pre: 0 <= p <= 6 and 0 <= q <= 6
@@ -465,5 +566,6 @@ def scalar_poly_twin(p: int, q: int) -> int:
 # warm up global state (handler tables, flyweights) so every CrossHair path sees the same state
 for _f, _a in ((scalar_poly_n0, (1, 2)), (mixed_components_k0, (1, 2, 3)), (symmetric_components, (1, 2, 3)),
                (symmetric_in_mixed, (1, 2)), (mixed_first_symmetric_last, (1, 2)), (piola_on_manifold, (1, 2)),
-               (enriched_sub_element, (2, 1, 1)), (nested_mixed, (1, 2, 3))):
+               (enriched_sub_element, (2, 1, 1)), (nested_mixed, (1, 2, 3)), (wrappers, (1, 2, 3)), (compound, (1, 2, 3)),
+               (piecewise, (1, 2)), (quadrilateral_cells, (1, 2, 3)), (curved_geometry, (2, 1))):
     _f(*_a)
